@@ -1002,12 +1002,17 @@ func (vc *VC) havocAllHeap(st *State) {
 	}
 }
 
-func (vc *VC) loopSpec() (*LoopSpec, int) {
-	vc.loopOrd++
-	if vc.inlineDepth > 0 || vc.contract == nil {
-		return nil, vc.loopOrd
+// loopSpec: loops are numbered by their position in the source of the function under verification.
+func (vc *VC) loopSpec(n ast.Node) (*LoopSpec, int) {
+	ord, ok := vc.loopIndex[n]
+	if !ok {
+		vc.loopOrd++
+		return nil, 1000 + vc.loopOrd
 	}
-	return vc.contract.Loops[vc.loopOrd], vc.loopOrd
+	if vc.inlineDepth > 0 || vc.contract == nil {
+		return nil, ord
+	}
+	return vc.contract.Loops[ord], ord
 }
 
 type loopCtx struct {
@@ -1026,7 +1031,7 @@ func (vc *VC) execFor(st *State, x *ast.ForStmt, label string) []Outcome {
 		}
 		st = ns[0]
 	}
-	spec, ord := vc.loopSpec()
+	spec, ord := vc.loopSpec(x)
 	lc := loopCtx{spec, ord, x.Pos(), label}
 	return vc.loopCommon(st, lc, nil,
 		func(s *State) string {
@@ -1179,7 +1184,7 @@ func (vc *VC) loopCommon(st *State, lc loopCtx, atHead func(s *State), cond func
 
 func (vc *VC) execRange(st *State, x *ast.RangeStmt, label string) []Outcome {
 	xt := vc.typeOf(x.X)
-	spec, ord := vc.loopSpec()
+	spec, ord := vc.loopSpec(x)
 	lc := loopCtx{spec, ord, x.Pos(), label}
 	switch u := under(xt).(type) {
 	case *types.Slice:
